@@ -75,7 +75,7 @@ def dags(draw, min_nodes=2, max_nodes=5, odd_names=True, allow_isolated=False, f
     dens = draw(st.sampled_from([5, 3, 4, 6, 8]))  # out of 8
     ch = draw(choosers())
     edges = []
-    shape = draw(st.sampled_from(["random"] * 8 + ["path", "star_out", "star_in", "hourglass"]))
+    shape = draw(st.sampled_from(["random"] * 8 + ["path", "star_out", "star_in", "hourglass", "ladder"]))
     shape = force_shape or shape
     if shape == "hourglass" and n >= 5:
         # several ways into one hub and several ways out of it: routes can be recombined at the hub, which is where
@@ -84,6 +84,12 @@ def dags(draw, min_nodes=2, max_nodes=5, odd_names=True, allow_isolated=False, f
         tops, hub, bottoms = names[:a], names[a], names[a + 1:]
         edges = [(t_, hub) for t_ in tops] + [(hub, b_) for b_ in bottoms]
         edges += [(t_, b_) for t_ in tops for b_ in bottoms if ch.below(8) == 0]
+    elif shape == "ladder" and n >= 4:
+        # a chain with skip edges: every inner node can be entered and left in two ways, and every skip edge is a
+        # shortcut next to a detour through the same end nodes
+        edges = [(names[i], names[i + 1]) for i in range(n - 1)] + [(names[i], names[i + 2]) for i in range(n - 2) if ch.below(4) != 0]
+        if ch.coin(1, 3):
+            edges.append((names[0], names[-1]))
     elif shape == "path":
         edges = [(names[i], names[i + 1]) for i in range(n - 1)]
     elif shape == "star_out":
@@ -205,9 +211,19 @@ def cyclic_digraphs(draw, max_skel=4, max_nodes=7, odd_names=True, core_only=Tru
     """Digraph with cycles: a DAG skeleton whose nodes are replaced by SCC gadgets (size-budgeted, with pendant
     sources/sinks where a cyclic gadget sits at a skeleton source/sink), or a plain random digraph with one
     designated source and sink.  With core_only every edge lies on a source->sink walk."""
-    kind = draw(st.sampled_from(["gadget", "gadget", "random"]))
+    kind = draw(st.sampled_from(["gadget", "gadget", "random", "gadget", "random", "loops"]))
     ch = draw(choosers(64))
-    if kind == "gadget":
+    if kind == "loops":
+        # a DAG whose only cycles are self-loops: "acyclic apart from loops" is where cycle handling is easily skipped
+        nodes, edges = draw(dags(3, min(max_nodes, 5), odd_names))
+        inner = [v for v in nodes if any(e[1] == v for e in edges) and any(e[0] == v for e in edges)]
+        loops = [v for v in inner if ch.coin(2, 3)] or inner[:1]
+        edges = list(edges) + [(v, v) for v in loops]
+        if not loops:
+            kind = "gadget"
+    if kind == "loops":
+        pass
+    elif kind == "gadget":
         sk_nodes, sk_edges = draw(dags(2, min(max_skel, max(2, max_nodes // 2)), False))
         sk_src, sk_snk = sources_sinks(sk_nodes, sk_edges)
         budget = max_nodes - len(sk_nodes)
@@ -332,6 +348,9 @@ def random_st_walk(ch, nodes, edges, target_len=6, cap=24, starts=None, ends=Non
                         best = p
             walk += best[1:]
             break
+        if target_len == 0:
+            # a direct route: never re-enter a node while there is another way on
+            succ = [w for w in succ if w not in walk] or succ
         if len(walk) < target_len:
             inside = [w for w in succ if scc[w] == scc[v]]
             nonsink = [w for w in succ if w not in snks]
@@ -439,7 +458,7 @@ def _subsequence(ch, seq, contiguous):
 
 @st.composite
 def model_cases(draw, classes=None, max_nodes=5, p_node=4, p_se=4, p_ignore=4, p_constr=3, p_opts=0,
-                odd_names=True, noise=True, k_slack=2, weight_types=("int", "float"), p_float_scale=0, p_equal=4, p_len=5, p_wild=0, p_hub=6):
+                odd_names=True, noise=True, k_slack=2, weight_types=("int", "float"), p_float_scale=0, p_equal=4, p_len=5, p_wild=0, p_hub=6, p_iso=6):
     """A full model construction: class, planted instance, kwargs.  p_* are '1 in p' odds (0 = never).
     The result is a JSON case {cls, graph, flow_attr, kw, meta}; meta carries the planted witness."""
     cls = draw(st.sampled_from(classes or ALL_CLASSES))
@@ -452,7 +471,7 @@ def model_cases(draw, classes=None, max_nodes=5, p_node=4, p_se=4, p_ignore=4, p
         nodes, edges = draw(cyclic_digraphs(max_nodes=max_nodes + 1, odd_names=odd_names))
     else:
         hub = one_in(p_hub)
-        nodes, edges = draw(dags(5, max(max_nodes, 5), odd_names, force_shape="hourglass")) if hub else draw(dags(2, max_nodes, odd_names))
+        nodes, edges = draw(dags(5, max(max_nodes, 5), odd_names, force_shape=ch.pick(["hourglass", "ladder"]))) if hub else draw(dags(2, max_nodes, odd_names))
     srcs, snks = sources_sinks(nodes, edges)
     starts, ends = [], []
     if use_se:
@@ -470,7 +489,8 @@ def model_cases(draw, classes=None, max_nodes=5, p_node=4, p_se=4, p_ignore=4, p
     equal_w = (1 + ch.below(3)) if one_in(p_equal) else None  # ties: greedy / heuristics no longer follow the planted routes
     for _ in range(k0):
         if cyc:
-            r = random_st_walk(ch, nodes, edges, target_len=2 + ch.below(6), cap=12, starts=starts, ends=ends)
+            # a mixture of direct routes and routes that stay in cycles: flow values of cycle edges both below and above the total
+            r = random_st_walk(ch, nodes, edges, target_len=ch.pick([0, 3, 0, 2, 5, 7, 4]), cap=12, starts=starts, ends=ends)
         else:
             r = random_st_path(ch, nodes, edges, starts=starts, ends=ends)
         w = equal_w if equal_w is not None else 1 + ch.below(4 if cyc else 6)
@@ -509,6 +529,14 @@ def model_cases(draw, classes=None, max_nodes=5, p_node=4, p_se=4, p_ignore=4, p
         node_mode = True
     if cls in ("MinFlowDecomp", "MinFlowDecompCycles") and not node_mode:
         starts, ends = [], []
+    # ---- node mode: an isolated weighted node is a legitimate input; its weight can only be explained by a one-node route
+    if node_mode and one_in(p_iso):
+        iso = next(nm for nm in ("iso", "iso.0", "iso 2") if nm not in nodes)
+        w_iso = (1 + ch.below(4)) if wt == "int" else float(1 + ch.below(4))
+        nodes = list(nodes) + [iso]
+        kept_nodes = kept_nodes + [iso]
+        nflow[iso] = w_iso
+        planted = list(planted) + [([iso], w_iso)]
     # ---- inexact weights
     noise_total = 0
     if noise and cls in INEXACT and ch.coin(2, 3):
